@@ -419,6 +419,15 @@ type LoopSpec struct {
 	Unroll     int // >0: unroll up to this many iterations, with unwinding obligation
 }
 
+// RelySpec: interference assumed at the direct calls of Key made by the function
+// (other goroutines may act while the call is in flight).
+type RelySpec struct {
+	Key      string
+	Modifies []*Clause
+	Ensures  []*Clause
+	Snap     string // label of the snapshot taken after the call returned
+}
+
 type LetDef struct {
 	Name string
 	E    Expr
@@ -437,6 +446,7 @@ type Contract struct {
 	Inline   bool
 	NoVerify bool
 	Flags    []string
+	Relies   map[string]*RelySpec
 	Reveal   []string
 	File     string
 	Line     int
@@ -473,13 +483,13 @@ type SpecFile struct {
 	Ghosts    []*GhostDef
 }
 
-var clauseHead = regexp.MustCompile(`^(requires|domain|ensures|check|hint|panics|returns|onpanic|modifies|assume|invariant)((?:\.[A-Za-z0-9_]+)?)((?:\[[A-Za-z0-9, ]+\])?)\s+(.*)$`)
+var clauseHead = regexp.MustCompile(`^(requires|domain|ensures|check|hint|panics|returns|onpanic|modifies|assume|invariant|guarantee)((?:\.[A-Za-z0-9_]+)?)((?:\[[A-Za-z0-9, ]+\])?)\s+(.*)$`)
 
 var keywords = map[string]bool{
 	"func": true, "iface": true, "extern": true, "pure": true, "ghost": true, "props": true,
 	"requires": true, "domain": true, "ensures": true, "check": true, "hint": true, "onpanic": true, "panics": true, "returns": true, "modifies": true,
 	"assume": true, "invariant": true, "let": true, "loop": true, "nopanic": true,
-	"trusted": true, "inline": true, "nonblocking": true, "reveal": true, "unroll": true, "params": true, "noverify": true,
+	"trusted": true, "inline": true, "nonblocking": true, "reveal": true, "rely": true, "guarantee": true, "unroll": true, "params": true, "noverify": true,
 }
 
 func firstWord(s string) string {
@@ -531,6 +541,7 @@ func ParseSpecText(text, path, pkgPath string) (*SpecFile, error) {
 	}
 	var cur *Contract
 	var curLoop *LoopSpec
+	var curRely *RelySpec
 	for _, rl := range lines {
 		s := stripComment(rl.s)
 		w := firstWord(s)
@@ -595,7 +606,23 @@ func ParseSpecText(text, path, pkgPath string) (*SpecFile, error) {
 				return nil, errf("%v", err)
 			}
 			cur.Lets = append(cur.Lets, LetDef{strings.TrimSpace(rest[:i]), e})
+		case "rely":
+			// rely <key> [snap <label>]
+			f := strings.Fields(rest)
+			if len(f) == 0 {
+				return nil, errf("rely needs a call key")
+			}
+			curRely = &RelySpec{Key: strings.Trim(f[0], "\"")}
+			if len(f) >= 3 && f[1] == "snap" {
+				curRely.Snap = f[2]
+			}
+			if cur.Relies == nil {
+				cur.Relies = map[string]*RelySpec{}
+			}
+			cur.Relies[curRely.Key] = curRely
+			curLoop = nil
 		case "loop":
+			curRely = nil
 			f := strings.Fields(rest)
 			if len(f) == 0 {
 				return nil, errf("loop needs an ordinal or closure suffix")
@@ -637,6 +664,10 @@ func ParseSpecText(text, path, pkgPath string) (*SpecFile, error) {
 				cl.E = e
 			}
 			switch {
+			case curRely != nil && cl.Kind == "modifies":
+				curRely.Modifies = append(curRely.Modifies, cl)
+			case curRely != nil && cl.Kind == "guarantee":
+				curRely.Ensures = append(curRely.Ensures, cl)
 			case cl.Kind == "invariant":
 				if curLoop == nil {
 					return nil, errf("invariant outside loop")
@@ -648,6 +679,7 @@ func ParseSpecText(text, path, pkgPath string) (*SpecFile, error) {
 				if cl.Kind != "modifies" {
 					curLoop = nil
 				}
+				curRely = nil
 				cur.Clauses = append(cur.Clauses, cl)
 			}
 		}
@@ -765,7 +797,7 @@ func collectCallKeys(e Expr, out map[string]bool) {
 	case *EQuant:
 		collectCallKeys(x.Body, out)
 	case *ECall:
-		if (x.Fn == "calls" || x.Fn == "dcalls" || x.Fn == "darg" || x.Fn == "dret" || x.Fn == "arg" || x.Fn == "argat" || x.Fn == "ncalls" || x.Fn == "ret" || x.Fn == "retat") && len(x.Args) > 0 {
+		if (x.Fn == "calls" || x.Fn == "ts" || x.Fn == "dcalls" || x.Fn == "darg" || x.Fn == "dret" || x.Fn == "arg" || x.Fn == "argat" || x.Fn == "ncalls" || x.Fn == "ret" || x.Fn == "retat") && len(x.Args) > 0 {
 			out[exprKey(x.Args[0])] = true
 		}
 		if x.Fn == "lastcall" && len(x.Args) == 3 {
@@ -789,4 +821,46 @@ func exprKey(e Expr) string {
 		return x.V
 	}
 	return "?"
+}
+
+
+// mentionsDirect: the expression speaks about the calls made directly by the
+// function itself (dcalls/darg/dret); such a clause is proved for the function
+// but means nothing to its callers and is never assumed at a call site.
+func mentionsDirect(e Expr) bool {
+	found := false
+	var walk func(e Expr)
+	walk = func(e Expr) {
+		switch x := e.(type) {
+		case *EUn:
+			walk(x.X)
+		case *EBin:
+			walk(x.X)
+			walk(x.Y)
+		case *ESel:
+			walk(x.X)
+		case *EIdx:
+			walk(x.X)
+			walk(x.I)
+		case *ESliceE:
+			walk(x.X)
+			if x.Lo != nil {
+				walk(x.Lo)
+			}
+			if x.Hi != nil {
+				walk(x.Hi)
+			}
+		case *EQuant:
+			walk(x.Body)
+		case *ECall:
+			if x.Fn == "dcalls" || x.Fn == "darg" || x.Fn == "dret" {
+				found = true
+			}
+			for _, a := range x.Args {
+				walk(a)
+			}
+		}
+	}
+	walk(e)
+	return found
 }
